@@ -114,7 +114,7 @@ def model(root_path, module_path, exclusions=(), regex_exclusions=()) -> Model:
     for f in files:
         me = _name(root, f)
         m.files_read += 1
-        tree = ast.parse(f.read_text())
+        tree = ast.parse(f.read_bytes())  # bytes: the compiler itself honours a BOM / an encoding declaration
         for node in ast.walk(tree):
             if isinstance(node, ast.Import):
                 for al in node.names:
